@@ -1,8 +1,9 @@
 import Proofs.CoFinal
 import Proofs.CoFuelDrain
 /-! C16 — wrap-up over every reachable start state: the queries under any schedule never run out of the model's fuel
-    (pages: for prefixes none of which is a prefix of another — without that the model's constant is too small,
-    `cf_pages_fuel_insufficient_dup` / `_nested`), and the strengthened page-query soundness. (The four original machines
+    (pages: for EVERY well-formed prefix list — the constant of the model was raised to `(trie.size + 1) *
+    (prefixes.length + 1)` because the old one was too small when a prefix is a prefix of another,
+    `cf_old_pages_fuel_insufficient_dup` / `_nested`), and the strengthened page-query soundness. (The four original machines
     drained alone = the atomic requests: `Proofs/CoDrainWriters.lean`, `Proofs/CoFuelDrain.lean`.) -/
 namespace Traph
 open State Layout
@@ -13,26 +14,25 @@ theorem cfq_sumOk_of_reachable {s : State} (h : Reachable s) : cf_SumOk s := by
 
 /-- **C16, the model's fuel is never the reason of a failure** (every reachable start state, every schedule, every
     family of requests): the network query never fails at all (only `StopIteration` after its end); a page query whose
-    prefixes are well formed and pairwise not prefixes of one another fails only with the `TraphException` of a
-    prefix that is not in the index -/
+    prefixes are well formed (any such list, equal or nested prefixes included) fails only with the `TraphException`
+    of a prefix that is not in the index -/
 theorem C16_queries_no_fuel {s : State} (hreach : Reachable s) (reqs : List CoReq) (sched : Sched) :
     (∀ i out auto e, reqs[i]? = some (.queryNet out auto) →
       (i, CoOut.failed e) ∈ (Sys.run (s, reqs.map CoReq.init) sched).2 → e = .other "StopIteration") ∧
     (∀ i ps e, reqs[i]? = some (.queryPages ps) → (∀ pf ∈ ps, lruIter pf ≠ []) →
-      (ps.map lruIter).Pairwise cf_Apart →
       (i, CoOut.failed e) ∈ (Sys.run (s, reqs.map CoReq.init) sched).2 → e = .traph ∨ e = .other "StopIteration") := by
   obtain ⟨t, hs, _⟩ := reachable_invariants hreach
   exact ⟨fun i out auto e hreq hm =>
       cf_C16_net_query_failures hs (cfq_sumOk_of_reachable hreach) reqs sched i out auto hreq e hm,
-    fun i ps e hreq hwf hap hm => cf_C16_pages_query_failures hs reqs sched i ps hreq hwf hap e hm⟩
+    fun i ps e hreq hwf hm => cf_C16_pages_query_failures hs reqs sched i ps hreq hwf e hm⟩
 
 /-- **C16, page query, soundness with the failure clause**: for every schedule the query either never returns within
     the schedule, or fails with `TraphException` (a prefix absent from the index) / `StopIteration` (resumed after its
-    end) — never with "fuel" when its prefixes are pairwise not prefixes of one another — or answers a list of pages of
+    end) — never with "fuel", whatever its prefixes — or answers a list of pages of
     the final index with correct crawled marks -/
 theorem C16_pages_query_sound_no_fuel {s : State} {t : T} (hs : Shape s t) (hi : Inv s t) (reqs : List CoReq)
     (hwf : ∀ r ∈ reqs, r.Wf) (sched : Sched) (i : Nat) (ps : List Bytes)
-    (hreq : reqs[i]? = some (.queryPages ps)) (hap : (ps.map lruIter).Pairwise cf_Apart) :
+    (hreq : reqs[i]? = some (.queryPages ps)) :
     (∀ e, (i, CoOut.failed e) ∈ (Sys.run (s, reqs.map CoReq.init) sched).2 → e = .traph ∨ e = .other "StopIteration") ∧
     (∀ a, (i, CoOut.done a) ∈ (Sys.run (s, reqs.map CoReq.init) sched).2 →
       ∃ t', Shape (Sys.run (s, reqs.map CoReq.init) sched).1.1 t' ∧
@@ -40,7 +40,7 @@ theorem C16_pages_query_sound_no_fuel {s : State} {t : T} (hs : Shape s t) (hi :
           IsPage (Sys.run (s, reqs.map CoReq.init) sched).1.1 t' (lruIter x.1) ∧
           (x.2 = true → IsCrawled (Sys.run (s, reqs.map CoReq.init) sched).1.1 t' (lruIter x.1))) := by
   have hw : ∀ pf ∈ ps, lruIter pf ≠ [] := hwf _ (List.mem_of_getElem? hreq)
-  exact ⟨fun e hm => cf_C16_pages_query_failures hs reqs sched i ps hreq hw hap e hm,
+  exact ⟨fun e hm => cf_C16_pages_query_failures hs reqs sched i ps hreq hw e hm,
     fun a hd => C16_pages_query_sound hs hi reqs hwf sched i ps a hreq hd⟩
 
 #print axioms C16_queries_no_fuel
